@@ -56,7 +56,7 @@ func (c11) Budget(tier string) (int, int, int) {
 }
 
 var c11Mutators = []string{"mkdir", "create", "openw", "opena", "opent", "write", "rename", "remove", "setlabel", "chmod", "chown", "chtimes", "symlink", "partition", "writepart", "createfs"}
-var c11Readers = []string{"readdir", "readfile", "stat", "openread", "label", "gettable", "getfs", "readpart"}
+var c11Readers = []string{"readdir", "readfile", "stat", "openread", "label", "gettable", "getfs", "readpart", "readmissing", "openmissing", "statmissing", "readdirmissing"}
 
 func (c11) Gen(r *core.Rng, tier string, idx int) *core.Trace {
 	t := &core.Trace{Cfg: map[string]int64{}, CfgS: map[string]string{}}
@@ -315,6 +315,19 @@ func (p c11) Exec(t *core.Trace) *core.Result {
 					io.ReadAll(f)
 					f.Close()
 				}
+			case "readmissing":
+				// reading calls that name a path whose parent directories do not exist: an error, and nothing created on the way
+				_, cerr = fs.ReadFile(bi.PathOf("NOPE/SUB/X.TXT"))
+			case "openmissing":
+				var f filesystem.File
+				f, cerr = fs.OpenFile(bi.PathOf("NOPE/SUB/X.TXT"), os.O_RDONLY)
+				if cerr == nil {
+					f.Close()
+				}
+			case "statmissing":
+				_, cerr = fs.Stat(vpath("NOPE/SUB/X.TXT"))
+			case "readdirmissing":
+				_, cerr = fs.ReadDir(vpath("NOPE/SUB"))
 			case "label":
 				_ = fs.Label()
 				_ = fs.Type()
